@@ -94,7 +94,10 @@ type c07Scope struct {
 
 // ZZC07Scopes: any subset of eight placements carries an @ignore marker (spelling symbolic); for EVERY position of
 // the file and every query code the suppression decision equals the documented scope of the markers.
-func ZZC07Scopes() { c07Scopes(-1) }
+func ZZC07Scopes() { c07ScopesN(-1, 2) }
+
+// ZZC07Scopes3: any three placements active at a time (thorough tier).
+func ZZC07Scopes3() { c07ScopesN(-1, 3) }
 
 // ZZC07Spellings: one marker (at the declaration placement) with every code-list spelling.
 func ZZC07Spellings() { c07Scopes(1) }
@@ -102,7 +105,9 @@ func ZZC07Spellings() { c07Scopes(1) }
 // ZZC07SpellingsStmt: the same for the statement placement.
 func ZZC07SpellingsStmt() { c07Scopes(2) }
 
-func c07Scopes(spellAt int) {
+func c07Scopes(spellAt int) { c07ScopesN(spellAt, 2) }
+
+func c07ScopesN(spellAt int, maxActive int) {
 	holes := []nd.Hole{}
 	sp := make([]string, 13)
 	names := []string{"c0", "c1", "c2", "c3", "c4", "c5", "c6", "c7", "c8", "c9", "c10", "c11", "c12"}
@@ -120,7 +125,7 @@ func c07Scopes(spellAt int) {
 		holes = append(holes, nd.Hole{Name: n, Value: sp[i]})
 		active += nd.IteInt(nd.HasPrefix(sp[i], " @ignore "), 1, 0)
 	}
-	nd.Assume(active <= 2) // stated bound: at most two markers at a time (all 13 placements, all pairs)
+	nd.Assume(active <= maxActive) // stated bound on simultaneously active markers
 	files := []nd.File{{Pkg: "zzmod/d", Name: "d.go", Src: c07Src}}
 	prog := nd.LoadProgram(files, holes)
 	var raw []analysis.Diagnostic
